@@ -155,8 +155,11 @@ Qed.
 Lemma In_deps_iter o fi n d : In d (deps_iter o fi n) <-> In d (mix_of fi n).
 Proof. unfold deps_iter. apply In_permute. Qed.
 
-Lemma In_dfs_deps sd o fi n d : In d (dfs_deps sd o fi n) <-> In d (mix_of fi n).
-Proof. unfold dfs_deps. destruct sd; [rewrite In_str_sort|]; apply In_deps_iter. Qed.
+Lemma In_dfs_deps o fi n d : In d (dfs_deps o fi n) <-> In d (mix_of fi n).
+Proof. unfold dfs_deps. rewrite In_str_sort. apply In_deps_iter. Qed.
+
+Lemma In_dfs_deps_unsorted o fi n d : In d (dfs_deps_unsorted o fi n) <-> In d (mix_of fi n).
+Proof. apply In_deps_iter. Qed.
 
 (* ------------------------------------------------------------------ the worklist closes the name set under mixins *)
 Definition winv (fi : finput) (queue names processed : list string) : Prop :=
@@ -195,22 +198,26 @@ Proof.
     + split; [exact C|]. intros m Hm. apply Inc. apply in_or_app. left. exact Hm.
 Qed.
 
-(* ------------------------------------------------------------------ same classes for every oracle, both forms *)
-Theorem frag_module_same_classes sd1 sd2 o1 o2 fi p1 ord1 p2 ord2 :
-  frag_module_order sd1 o1 fi = Some (p1, ord1) ->
-  frag_module_order sd2 o2 fi = Some (p2, ord2) ->
+(* ------------------------------------------------------------------ what the module contains *)
+(* For any dependency iteration whose MEMBERS are the mixins (sorted or not), any two oracles: same generation
+   order, class orders that are permutations of each other, no class twice, every requested fragment present. *)
+Theorem frag_module_same_classes deps1 deps2 o1 o2 fi p1 ord1 p2 ord2 :
+  (forall o n d, In d (deps1 o fi n) <-> In d (mix_of fi n)) ->
+  (forall o n d, In d (deps2 o fi n) <-> In d (mix_of fi n)) ->
+  frag_module_order_with deps1 o1 fi = Some (p1, ord1) ->
+  frag_module_order_with deps2 o2 fi = Some (p2, ord2) ->
   p1 = p2 /\ Permutation ord1 ord2 /\ NoDup ord1 /\
   (forall x, In x (set_diff (fi_defs fi) (fi_excl fi)) -> In x ord1).
 Proof.
-  unfold frag_module_order. intros H1 H2.
+  unfold frag_module_order_with. intros M1 M2 H1 H2.
   set (names0 := set_diff (fi_defs fi) (fi_excl fi)) in *.
   rewrite (names_sorted_independent o1 o2) in H1. rewrite (work_independent _ o1 o2) in H1.
   destruct (work (frag_fuel fi) o2 fi (str_sort (permute (o2 "<names>") names0)) names0 [])
     as [[names processed]|] eqn:W; [|discriminate].
   rewrite (names_sorted_independent o1 o2) in H1.
   set (roots := str_sort (permute (o2 "<names>") names)) in *.
-  destruct (dfs_all (frag_fuel fi) (dfs_deps sd1 o1 fi) roots) as [r1|] eqn:D1; [|discriminate].
-  destruct (dfs_all (frag_fuel fi) (dfs_deps sd2 o2 fi) roots) as [r2|] eqn:D2; [|discriminate].
+  destruct (dfs_all (frag_fuel fi) (deps1 o1 fi) roots) as [r1|] eqn:D1; [|discriminate].
+  destruct (dfs_all (frag_fuel fi) (deps2 o2 fi) roots) as [r2|] eqn:D2; [|discriminate].
   inversion H1; subst. inversion H2; subst. clear H1 H2.
   assert (WI : winv fi (str_sort (permute (o2 "<names>") names0)) names0 []).
   { split; [|split].
@@ -220,15 +227,36 @@ Proof.
   destruct (work_closed _ _ _ _ _ _ _ _ WI W) as [C Inc].
   assert (Rin : incl roots names) by (intros x Hx; apply In_str_sort, In_permute in Hx; exact Hx).
   assert (Rout : incl names roots) by (intros x Hx; apply In_str_sort, In_permute; exact Hx).
-  destruct (dfs_all_exact (dfs_deps sd1 o1 fi) names
-              (fun n d Hn Hd => C n d Hn (proj1 (In_dfs_deps sd1 o1 fi n d) Hd)) _ roots ord1 Rin D1)
-    as [N1 [S1 R1]].
-  destruct (dfs_all_exact (dfs_deps sd2 o2 fi) names
-              (fun n d Hn Hd => C n d Hn (proj1 (In_dfs_deps sd2 o2 fi n d) Hd)) _ roots ord2 Rin D2)
-    as [N2 [S2 R2]].
+  destruct (dfs_all_exact (deps1 o1 fi) names
+              (fun n d Hn Hd => C n d Hn (proj1 (M1 o1 n d) Hd)) _ roots ord1 Rin D1) as [N1 [S1 R1]].
+  destruct (dfs_all_exact (deps2 o2 fi) names
+              (fun n d Hn Hd => C n d Hn (proj1 (M2 o2 n d) Hd)) _ roots ord2 Rin D2) as [N2 [S2 R2]].
   split; [reflexivity|]. split; [|split; [exact N1|]].
   - apply NoDup_Permutation; auto. intro x. split; intro Hx.
     + apply R2, Rout, S1, Hx.
     + apply R1, Rout, S2, Hx.
   - intros x Hx. apply R1, Rout, Inc. exact Hx.
+Qed.
+
+(* the module as generated: no class twice, every requested fragment present *)
+Theorem frag_module_complete o fi p ord :
+  frag_module_order o fi = Some (p, ord) ->
+  NoDup ord /\ (forall x, In x (set_diff (fi_defs fi) (fi_excl fi)) -> In x ord).
+Proof.
+  intro H.
+  destruct (frag_module_same_classes dfs_deps dfs_deps o o fi p ord p ord
+              (fun o' n d => In_dfs_deps o' fi n d) (fun o' n d => In_dfs_deps o' fi n d) H H) as [_ [_ R]].
+  exact R.
+Qed.
+
+(* the pre-93e79d6 DFS could only ever reorder: same classes as the sorted one *)
+Theorem frag_module_unsorted_same_classes o1 o2 fi p1 ord1 p2 ord2 :
+  frag_module_order_unsorted o1 fi = Some (p1, ord1) -> frag_module_order o2 fi = Some (p2, ord2) ->
+  p1 = p2 /\ Permutation ord1 ord2.
+Proof.
+  intros H1 H2.
+  destruct (frag_module_same_classes dfs_deps_unsorted dfs_deps o1 o2 fi p1 ord1 p2 ord2
+              (fun o' n d => In_dfs_deps_unsorted o' fi n d) (fun o' n d => In_dfs_deps o' fi n d) H1 H2)
+    as [E [P _]].
+  split; assumption.
 Qed.
